@@ -22,7 +22,7 @@ CORR_HEADER = ("From Coq Require Import ZArith QArith List String.\n"
                "Open Scope string_scope.\nOpen Scope Q_scope.\n")
 CHECK_FN = "check_c08"
 SHARD = 20
-RULE = ("[checklist families: object reuse, interleaved instances, caller-owned data frozen/vandalised, odd ids and dtypes, mid-run JSON round trip, constraint mutations between calls, odd periods/increments, interrupted+resumed runs, second process with another hash seed, direct entry points] C07 unit generator restricted to sessions with DISTINCT priority keys for the chosen order (equal keys are counted as "
+RULE = ("[wave 6: in-simulator infrastructure taken from the EVSE objects / the harness' own constraint record and compared with Interface.infrastructure_info() at every call; sessions whose own minimum rate exceeds the remaining demand] [checklist families: object reuse, interleaved instances, caller-owned data frozen/vandalised, odd ids and dtypes, mid-run JSON round trip, constraint mutations between calls, odd periods/increments, interrupted+resumed runs, second process with another hash seed, direct entry points] C07 unit generator restricted to sessions with DISTINCT priority keys for the chosen order (equal keys are counted as "
         "skipped, kind 'tie-skipped'): unequal voltages / max pilots / limits so that laxity and processing-time orders differ "
         "from arrival order, several constraints binding at once, continuous and finite-rate EVSEs, all five orders x "
         "{greedy, round robin} x estimator x uninterrupted x increments. Compared: everything C07 compares (schedule, order, "
@@ -125,7 +125,8 @@ def extra_streams(rng, tier):
 
 def monitor(case):
     if case.get("sim_violation"):
-        return None          # C07's business
+        # warnings / energies are C07's business; what the algorithm is told about its levels is C08's as well
+        return case["sim_violation"] if "infrastructure_info()" in case["sim_violation"] else None
     if case.get("hash_violation"):
         return case["hash_violation"]
     if "mfr" in case["input"]:
@@ -135,7 +136,7 @@ def monitor(case):
     if case.get("ambiguous"):
         return None
     i_ = case["impl"]
-    if i_.get("data_mutated") or i_.get("held_changed"):
+    if i_.get("data_mutated") or i_.get("held_changed") or i_.get("info_diff"):
         return sm.monitor_c07(case["input"], i_)
     return sm.monitor_c08(case["input"], i_) or sm.monitor_rr_trace(case["input"], i_)
 
@@ -169,6 +170,8 @@ def search(rng, budget_s, broken):
 
 
 def replay(w):
+    if "sim" in w["case"]:
+        return sm.replay_sim(w["case"]["sim"], w["case"].get("plan"))
     if "mfr" in w["case"]:
         return sm.monitor_mfr(w["case"]["mfr"], sm.run_mfr(w["case"]["mfr"]))
     scn, impl = sc.replay_with_history(w["case"])
